@@ -209,9 +209,14 @@ _generic_cache = {}
 def generic_classes(enz):
     """fresh generic module / vector classes over an enzyme (one pair per enzyme)"""
     if enz not in _generic_cache:
-        M = type("GenericModule_" + str(enz), (AbstractModule,), {"cutter": enz})
-        V = type("GenericVector_" + str(enz), (AbstractVector,), {"cutter": enz})
+        # every generic class has the same name and derives from the one made before it (a laboratory's classes
+        # for its cutters are typically made by one factory, or by subclassing the previous level and changing
+        # `cutter`): what a class matches must depend on its own cutter only, not on its name or its ancestors
+        prev = _generic_cache.get("__last__", (AbstractModule, AbstractVector))
+        M = type("GenericModule", (prev[0],), {"cutter": enz, "__doc__": "generic module over " + str(enz)})
+        V = type("GenericVector", (prev[1],), {"cutter": enz, "__doc__": "generic vector over " + str(enz)})
         _generic_cache[enz] = (M, V)
+        _generic_cache["__last__"] = (M, V)
     return _generic_cache[enz]
 
 
@@ -293,10 +298,14 @@ def line(op):
 def search_target(word, kind):
     if kind == "seq":
         return Seq(word)
+    # every other record carries what sequencing and curation leave on a record: a per-letter track and a feature
+    rich = len(word) % 2 == 1 and len(word) >= 1
+    la = {"phred": [30 + (i % 10) for i in range(len(word))]} if rich else None
+    fts = [SeqFeature(SimpleLocation(0, len(word), 1), type="misc_feature", qualifiers={"label": ["whole"]})] if rich else []
     if kind == "rec":
-        return SeqRecord(Seq(word), id="x")
+        return SeqRecord(Seq(word), id="x", features=fts, letter_annotations=la)
     if kind == "circrec":
-        return CircularRecord(Seq(word), id="x")
+        return CircularRecord(Seq(word), id="x", features=fts, letter_annotations=la)
     raise ValueError(kind)
 
 
